@@ -171,6 +171,19 @@ def run(ctx):
             r3.ok("allocate loop exit", "only on !toi_reserved.contains(&self.toi)", loc(fa.body.blocks[h].term.sp))
         else:
             r3.violation("allocate loop exit", "the search loop can be left with a cursor that is still reserved", loc(fa.body.blocks[h].term.sp))
+    # the cursor is not touched between the loop exit (where it is known to be free) and the return
+    loopblocks = set()
+    for h, blocks, srcs in ls:
+        loopblocks |= set(blocks)
+    for a in field_accesses(prog, TAI, "toi", funcs=[fa]):
+        if a["kind"] not in ("assign", "assign_sub", "borrow_mut"):
+            continue
+        key = "allocate writes the cursor only inside its search loop"
+        if a["bb"] in loopblocks:
+            r3.ok(key, "self.toi = %s" % show(a["value"], 50), loc(a["sp"]))
+        else:
+            r3.violation(key, "self.toi = %s after the search loop was left: the loop exit established `!toi_reserved.contains(&self.toi)` for the old "
+                              "value only, the new cursor may be a TOI that is still reserved or attached to a live object" % show(a["value"], 50), loc(a["sp"]))
     wmc(r3, prog, r"^sender::toiallocator::ToiAllocatorInternal::release$", [r"^sender::toiallocator::ToiAllocator::release$"])
     wmc(r3, prog, r"^sender::toiallocator::ToiAllocator::release$", [r"^<sender::toiallocator::Toi as (std|core)::ops::Drop>::drop$"])
     for s, ai, mut in calls_on_field(prog, TAI, "toi_reserved"):
@@ -183,7 +196,7 @@ def run(ctx):
             r3.ok(key, "", s.loc)
         else:
             r3.violation(key, "reservation set modified by %s outside release()" % m, s.loc)
-    r3.floor(6, "mechanism facts")
+    r3.floor(8, "mechanism facts")
 
     # ---- R4 ownership witnesses -------------------------------------------------------------------------
     r4 = ctx.rule("C15.R4", "a Toi handle cannot be cloned or forged outside the crate; Sender, Toi and Box<ObjectDesc> are "
